@@ -396,6 +396,13 @@ func (c *Ctx) instr(fr *Frame, st *State, reach string, ins ssa.Instruction) {
 				}
 			}
 			fr.env[x] = c.load(st, p)
+			if g, isG := x.X.(*ssa.Global); isG && g.Pkg != nil && !strings.HasPrefix(g.Pkg.Pkg.Path(), modulePath) {
+				// an error variable of a dependency (io.EOF, bufio.ErrBufferFull, ...): a non-nil sentinel
+				if iv, ok := fr.env[x].(IfaceV); ok && types.Identical(x.Type(), errType) && (strings.HasPrefix(g.Name(), "Err") || g.Name() == "EOF") {
+					c.assume("true", fmt.Sprintf("(not (= %s 0))", iv.Tag))
+					c.depsUsed["error variables of dependencies (io.EOF, bufio.ErrBufferFull, ...) are non-nil sentinels"] = true
+				}
+			}
 		case token.NOT:
 			fr.env[x] = Sc{not(c.val(fr, x.X).(Sc).T), "Bool"}
 		case token.SUB:
